@@ -302,4 +302,38 @@ def secOf (lockOf : String → Model.RW.Mode) (op : Op) : Model.RW.Sec Op (List 
       then [Model.RW.Acc.wr op.map (fun l s => (l ++ [(step s op).2], (step s op).1))]
       else [Model.RW.Acc.rd op.map (fun l s => l ++ [(step s op).2])] }
 
+/-! ## A multi-section call: `GetOrLoadClass` with a class file (autoload)
+
+`GetOrLoadClass(n)` → `findClassCaseInsensitive` (miss) → `LoadClass`: the file is
+found; `GetPhpFileCache(f)`? then "is the class there" → `LoadAndRun(f)`:
+`GetPhpFileCache(f)`? return : `SetPhpFileCache(f)`; parse and run the file
+(`AddClass d`) → final lookup.  Every step is its own locked section; which
+steps run depends on the results so far (private state = list of results,
+a skipped step records `nil`). -/
+
+def rdSec (op : Op) (cond : List Res → Bool) : Model.RW.Sec Op (List Res) State :=
+  ⟨op, .R, [.rd op.map (fun l s => if cond l then l ++ [(step s op).2] else l ++ [.nil])]⟩
+
+def wrSec (op : Op) (cond : List Res → Bool) : Model.RW.Sec Op (List Res) State :=
+  ⟨op, .W, [.wr op.map (fun l s => if cond l then (l ++ [(step s op).2], (step s op).1) else (l ++ [.nil], s))]⟩
+
+def loadCall (d : Decl) (f : Nat) : List (Model.RW.Sec Op (List Res) State) :=
+  [ rdSec (.getClass d.name) (fun _ => true),                    -- 0 GetOrLoadClass: first lookup
+    rdSec (.getFile f) (fun l => l[0]? == some .miss),            -- 1 LoadClass: GetPhpFileCache(f)
+    rdSec (.getClass d.name) (fun l => l[1]? == some (.hit 1)),   -- 2   … already loaded: is the class registered?
+    rdSec (.getFile f) (fun l => l[0]? == some .miss && !(l[2]?.map isFound == some true)),
+                                                                  -- 3 LoadAndRun: GetPhpFileCache(f)
+    wrSec (.setFile f) (fun l => l[3]? == some .miss),            -- 4 SetPhpFileCache(f)
+    wrSec (.addClass d) (fun l => l[3]? == some .miss),           -- 5 parse + run the file: AddClass
+    rdSec (.getClass d.name) (fun l => l[0]? == some .miss) ]     -- 6 final lookup
+
+/-- what the caller of `GetOrLoadClass` receives -/
+def loadOutcome (l : List Res) : Res :=
+  match l[0]? with
+  | some r => if isFound r then r else
+    match l[2]?, l[6]? with
+    | some r2, some r6 => if isFound r2 then r2 else if isFound r6 then r6 else .errLoad
+    | _, _ => .nil
+  | none => .nil
+
 end Model.Reg
